@@ -417,9 +417,11 @@ MANIFEST_TEXT = {
              "from a parsed sequence the frame set re-creates itself, so Copy is the identical value and Split yields one part per "
              "comma component with equal dir/base/pad/width/style/ext whose frames concatenate (first occurrences) to the original's; "
              "for EVERY history, including SetFrameSet(Normalize()) / SetFrameSet(Invert()), the frame set stays well formed and Copy "
-             "has the same components, range string, frames, length and the same path at every index (C12_history_sound, C12_copy_any).",
+             "has the same components, range string, frames, length and the same path at every index, and Split — whenever the range "
+             "string re-parses — yields parts with the same components whose frames concatenate to the sequence's "
+             "(C12_history_sound, C12_copy_any, C12_split_any).",
         note="Trusted: Lean kernel; model of sequence.go setters/Copy/Split tied by correspondence incl. an aliasing test of Copy; "
-             "Split after SetFrameSet(Normalize()/Invert()) is covered by correspondence only."),
+             "a printed range string that does not fit an int (re-parse fails) leaves Split to the correspondence run."),
     "C15": dict(
         text="Theorem: IsFrameRange(s) is true exactly when NewFrameSet(s) succeeds, for every byte string; the model's functions "
              "are total (kernel-checked termination) and the guards of the two index expressions are stated. Crash-freedom of the "
